@@ -62,7 +62,7 @@ pub fn case_strategy() -> BoxedStrategy<StreamCase> {
             first_instance,
             execs,
         });
-    (
+    let few = (
         1u8..5,
         proptest::collection::vec((0u8..4, any::<u16>()), 0..3),
         proptest::collection::vec(task, 1..10),
@@ -73,8 +73,39 @@ pub fn case_strategy() -> BoxedStrategy<StreamCase> {
             crashed,
             tasks,
             schedule,
-        })
-        .boxed()
+        });
+    // many workers writing into one directory (the reader keeps a bounded number of files open):
+    // 17-22 writers, 24-40 short tasks spread over them
+    let exec_m = (
+        0u8..22,
+        proptest::collection::vec((0u8..2, 0u8..4), 0..4),
+    )
+        .prop_map(|(writer, chunks)| ExecSpec { writer, chunks });
+    let task_m = (
+        1u8..3,
+        0u8..40,
+        0u8..3,
+        proptest::collection::vec(exec_m, 1..3),
+    )
+        .prop_map(|(job, task, first_instance, execs)| TaskSpec {
+            job,
+            task,
+            first_instance,
+            execs,
+        });
+    let many = (
+        17u8..23,
+        proptest::collection::vec((0u8..22, any::<u16>()), 0..3),
+        proptest::collection::vec(task_m, 24..41),
+        proptest::collection::vec(any::<u16>(), 0..200),
+    )
+        .prop_map(|(n_writers, crashed, tasks, schedule)| StreamCase {
+            n_writers,
+            crashed,
+            tasks,
+            schedule,
+        });
+    prop_oneof![6 => few, 1 => many].boxed()
 }
 
 static STDOUT_LOCK: Mutex<()> = Mutex::new(());
@@ -516,6 +547,9 @@ pub fn execute(case: &StreamCase) -> StreamRun {
     if any_superseded_checked {
         run.classes.push("superseded-instance".into());
     }
+    if files_of_writer.len() > 16 {
+        run.classes.push("more-than-16-writer-files".into());
+    }
     if files_of_writer.len() > 1 {
         run.classes.push("several-writer-files".into());
     }
@@ -587,7 +621,7 @@ impl Engine for StreamEngine {
         out
     }
     fn rule(&self) -> String {
-        "STREAM engine: 1-4 real StreamerRef writers (one per simulated worker) write into one directory; up to 9 tasks with 1-3 executions each (increasing instance ids, on generated writers), 0-6 chunks per execution of sizes {1, 7, 300, 4096, 16384, 16385 -> split as the 16 KiB pipe buffer does}, closing zero-size chunks and flush at task end as program.rs does; every third execution prints multi-byte UTF-8 text as one continuous stream, so that chunk boundaries fall inside characters; chunk sends of concurrently running tasks are interleaved by a generated schedule; crashed writers lose their unflushed tail and their file is cut at a generated offset. The directory is read with the real OutputLog: cat (both channels), export (the bytes as lossy UTF-8 text) and summary are compared with the bytes the last execution of every task that ended on a live writer wrote. Distinct = hash of the send trace. Non-trivial = chunks of at least two tasks interleaved and (a superseded instance or a torn file)".into()
+        "STREAM engine: 1-4 real StreamerRef writers (one per simulated worker; in one case of seven 17-22 writers with 24-40 short tasks, more files than the reader keeps open) write into one directory; up to 9 tasks with 1-3 executions each (increasing instance ids, on generated writers), 0-6 chunks per execution of sizes {1, 7, 300, 4096, 16384, 16385 -> split as the 16 KiB pipe buffer does}, closing zero-size chunks and flush at task end as program.rs does; every third execution prints multi-byte UTF-8 text as one continuous stream, so that chunk boundaries fall inside characters; chunk sends of concurrently running tasks are interleaved by a generated schedule; crashed writers lose their unflushed tail and their file is cut at a generated offset. The directory is read with the real OutputLog: cat (both channels), export (the bytes as lossy UTF-8 text) and summary are compared with the bytes the last execution of every task that ended on a live writer wrote. Distinct = hash of the send trace. Non-trivial = chunks of at least two tasks interleaved and (a superseded instance or a torn file)".into()
     }
     fn assumptions(&self) -> Vec<String> {
         vec![
